@@ -12,6 +12,7 @@ import EPV.Lemmas.USetOps
 import EPV.Lemmas.USetCompl
 import EPV.Lemmas.USetExt
 import EPV.Lemmas.USetIcp
+import EPV.Lemmas.USetEq
 namespace EPV.C13
 open EPV.USet
 
@@ -256,5 +257,21 @@ theorem rsub_list_refines (l o : List CP) (hw : WInv l) (ho : AllValid o) :
   simp only [step, specStep] at this
   rw [rsubList, this, u2 x]
   simp [memL]
+
+
+/-- **Equality is extensional for every representation** (`__eq__` after the repair compares the
+merged forms): for ANY two lists of non-empty entries — canonical or not, sorted or not, e.g. what
+`add` leaves behind (finding F13) — `a == b` holds exactly when they contain the same code points. -/
+theorem eq_extensional (a b : List CP) (ha : AllValid a) (hb : AllValid b) :
+    eqSubset a b = true ↔ ∀ x, memL x a ↔ memL x b :=
+  eqSubset_iff a b ha hb
+
+/-- the F13 witnesses now compare equal to their merged forms -/
+example : eqSubset [.rng 19 22, .one 22] [.rng 19 23] = true :=
+  (eq_extensional _ _ (by intro v hv; simp at hv; rcases hv with rfl | rfl <;> simp)
+    (by intro v hv; simp at hv; subst hv; simp)).mpr
+    (fun x => by
+      simp only [memL, CP.mem, CP.lo_rng, CP.hi_rng, CP.lo_one, CP.hi_one, or_false]
+      constructor <;> intro h <;> omega)
 
 end EPV.C13
